@@ -39,7 +39,7 @@ ASSUMPTIONS = [
     "real-valued chi^2 are instantiated from a finite alphabet containing ties, +inf and NaN plus seed-derived values",
     "two FitInfo objects with equal canonical encoding (all fields and all instance attributes) have equal futures",
 ]
-REQUIRED_CLASSES = ['ranking-of-hundreds-of-fits', 'n>total', 'empty-vector', 'all-inf', 'nan-present', 'tie-straddles-N-cut',
+REQUIRED_CLASSES = ['statistics-need-double-precision', 'ranking-of-hundreds-of-fits', 'n>total', 'empty-vector', 'all-inf', 'nan-present', 'tie-straddles-N-cut',
                     'cut-strictly-inside', 'kept-all', 'kept-none', 'model_fluxes-None', 'unsorted-through-sort',
                     'longer-vector', 'flags-changed-on-live-source']
 
@@ -127,6 +127,8 @@ def cases(ctx):
         yield {'kind': 'longer', 'chi': _enc(chi)}
     for chi in ctx['huge']:
         yield {'kind': 'huge', 'chi': _enc(chi)}
+    for i in range(len(PRECISION)):
+        yield {'kind': 'precision', 'which': i}
     group = []
     for v in ctx['unsorted']:
         group.append(_enc(v))
@@ -347,7 +349,29 @@ def _live_source(rec, chi):
                                       {'problem': bad[1], 'n_data_now': nd, 'source.n_data': int(o.source.n_data), 'expected_kept': k})
 
 
+PRECISION = [
+    # chi^2 values with a large common offset and differences of order one: the statistics chi2 - best and chi2 / n_data need the
+    # full double precision of the stored values (single precision spaces 1e8 by 8)
+    ([1e8, 1e8 + 1.0, 1e8 + 2.5, 1e8 + 6.0, 1e8 + 40.0], [('C', 1e8 + 0.5), ('C', 1e8 + 3.0), ('C', 99999999.5), ('D', 0.4), ('D', 1.4), ('D', 3.1), ('D', 10.0),
+                                                        ('E', 5e7 + 0.75), ('E', 1e8 + 1.5), ('F', 0.9), ('F', 1.6), ('F', 2.2)]),
+    ([3.0e6 + 0.125 * i for i in range(12)], [('C', 3.0e6 + 0.3), ('C', 3.0e6 + 1.3), ('D', 0.3), ('D', 0.7), ('D', 1.3), ('F', 0.3), ('E', 1.5e6 + 0.2), ('E', 1.0e6 + 0.2)]),
+    # beyond the single-precision range, and a ranking that ends in values that differ in the last bits only
+    ([1.0, 1e37, 5e38, 1e39, 1e300], [('C', 1e38), ('C', 6e38), ('C', 1e40), ('D', 2e39), ('E', 2e38), ('F', 4e38)]),
+    ([2.0, 2.0 + 1e-13, 2.0 + 2e-13, 2.0 + 1e-9, 2.0 + 1e-6], [('C', 2.0 + 1.5e-13), ('C', 2.0 + 5e-10), ('D', 1.5e-13), ('D', 5e-10), ('D', 5e-7), ('F', 0.4e-13), ('E', 1.0 + 2e-10)]),
+]
+
+
 def run_case(ctx, case, rec, d):
+    if case['kind'] == 'precision':
+        chi, sels = PRECISION[case['which']]
+        for nd, flags in FLAGSETS.items():
+            # no statistic may sit on a threshold (the comparison there is decided by the last bit)
+            att = selref.attained(list(chi), nd)
+            for f_, v_ in sels:
+                assert all(abs(x - v_) > 4 * np.spacing(abs(v_)) for x in att if x == x and abs(x) != INF), (chi, nd, f_, v_)
+            _explore(rec, ('precision', case['which']), list(chi), nd, flags, nd == 2, False, True, SELECTORS=[('A', 0), ('N', 2)] + sels)
+        rec.cls('statistics-need-double-precision')
+        return
     if case['kind'] == 'huge':
         chi = _dec(case['chi'])
         L = len(chi)
